@@ -52,8 +52,8 @@ mutual
     | 0, _, _ => "out-of-fuel"
     | _ + 1, .scalar k bits req, st? =>
       let st := match st? with
-        | some st => if w.sd.unit = 8 then st.adapt bo bits else st
-        | none => (Storage.null w.sd.unit).adapt bo bits
+        | some st => st.adaptFor w.sd.unit 1 bo bits
+        | none => (Storage.null w.sd.unit).adaptFor w.sd.unit 1 bo bits
       leafObs k (leafComplete k bits st) (leafRead o w k bits req st) present
     | fuel + 1, .struct name bits args, st? =>
       match m.find name with
@@ -61,8 +61,7 @@ mutual
       | some sd =>
         match st?, evalArgs (envOf o w none) args with
         | some st, some vs =>
-          obsView o m fuel { sd := sd, params := some vs,
-                             st := if sd.unit = 8 then st else st.adapt bo bits }
+          obsView o m fuel { sd := sd, params := some vs, st := st.adaptFor w.sd.unit sd.unit bo bits }
         | _, _ => obsView o m fuel (nullView sd)
     | fuel + 1, .array elem es, st? =>
       let st := match st? with
@@ -128,15 +127,15 @@ def typeEquals (o : Oracle) (m : Module) (eqView : SView → SView → Bool) (wa
     (bo : ByteOrder) : PType → Storage → Storage → Bool
   | .scalar k bits req, sa, sb =>
     -- leaf: Read() == Read()  (only called when both are Ok; unreadable leaves compare unequal here)
-    match leafRead o wa k bits req (if wa.sd.unit = 8 then sa.adapt bo bits else sa),
-          leafRead o wb k bits req (if wb.sd.unit = 8 then sb.adapt bo bits else sb) with
+    match leafRead o wa k bits req (sa.adaptFor wa.sd.unit 1 bo bits),
+          leafRead o wb k bits req (sb.adaptFor wb.sd.unit 1 bo bits) with
     | some x, some y => x == y
     | _, _ => false
   | .struct name bits args, sa, sb =>
     match m.find name, evalArgs (envOf o wa none) args, evalArgs (envOf o wb none) args with
     | some sd, some va, some vb =>
-      eqView { sd := sd, params := some va, st := if sd.unit = 8 then sa else sa.adapt bo bits }
-             { sd := sd, params := some vb, st := if sd.unit = 8 then sb else sb.adapt bo bits }
+      eqView { sd := sd, params := some va, st := sa.adaptFor wa.sd.unit sd.unit bo bits }
+             { sd := sd, params := some vb, st := sb.adaptFor wb.sd.unit sd.unit bo bits }
     | _, _, _ => false
   | .array elem es, sa, sb =>
     es ≠ 0 && sa.size / es == sb.size / es &&
